@@ -15,6 +15,8 @@
 (*   scenario/clock.py:ScenarioClock.ticToc  clock.time += step            *)
 (*   scenario.saveDatabaseOutput             one epoch recorded per step   *)
 (*                                                                         *)
+(* Requests range from a few seconds to several days (Durations_long_*.cfg: *)
+(* 12 h .. 4 d with steps of 1-2 h).                                        *)
 (* All times are integer seconds relative to the scenario start.  The      *)
 (* second of the minute of the start instant (startSec) is part of the     *)
 (* configuration because it is the quantity the date inversion depends on: *)
@@ -98,7 +100,7 @@ StopsOnlyWhenNoStepFits == (pc = "idle" /\ calls > 0) => target - clockSec < dt
 \* expected step counts / epochs for a sample of the end states (spec -> driver)
 \* (a 1/SampleMod thinning of the lattice; the driver stratifies what is left over startSec)
 Shape    == SumSeq(reqs) * 7 + dt * 17 + calls * 3 + SampleSeed
-Selected == (Shape * 7919 + startSec * 104729) % SampleMod = 0     \* stays below 2^31
+Selected == ((Shape % 100003) * 7919 + startSec * 104729) % SampleMod = 0     \* stays below 2^31
 Emit == (pc = "idle" /\ calls > 0 /\ Selected) =>
    PrintT("DUR " \o ToJson([startSec |-> startSec, dt |-> dt, reqs |-> reqs,
                             counts |-> counts, epochs |-> epochs]))
@@ -111,4 +113,8 @@ QuotsQuick   == {1, 3}
 QuotsThorough == {0, 1, 2, 4}
 RemsQuick    == {"zero", "one", "max"}
 RemsThorough == {"zero", "one", "half", "max"}
+\* requests of a day and more (1 d, 1 d 7.5 h, 2 d, 4 d, ...) with large steps
+DtsLong      == {3600, 7200}
+QuotsLong    == {12, 24, 31, 48}
+RemsLong     == {"zero", "half"}
 =============================================================================
